@@ -112,6 +112,7 @@ func c11Context() *plush.Context {
 	ctx.Set("pm", &pm)
 	pm0 := map[string]pK{"a": mkK("pms[0][a]")}
 	ctx.Set("pms", []*map[string]pK{&pm0})
+	ctx.Set("im", map[int]pK{1: mkK("im[1]")})
 	ctx.Set("i0", 0)
 	ctx.Set("i1", 1)
 	ctx.Set("i9", 9)
